@@ -126,6 +126,13 @@ PROPERTIES = {
                        'one-shot action is released before its callback, an action due together with a pending event joins '
                        'it (all run in the same step), a confirmed deletion takes the action out of the pending or elapsed '
                        'list.',
+        'assumptions': [
+            'RF16: within one call of COTmrInsert / COTmrRemove no time passes (COIfTimerDelay() returns one value D; after '
+            'COIfTimerReload(x) the remaining time is x); when COTmrService finds the timer elapsed the remaining time is 0',
+            'RF16: affine forms are over the integers - 32-bit wrap-around of time sums is not modelled',
+            'RF16: list nodes outside the window (before the predecessor, behind the second successor) are reachable only '
+            'through the window; a store to one of them is reported, not assumed away',
+        ],
         'not_decided': 'the schedule itself (on which tick each callback runs for a given operation history): the clauses above '
                        'are necessary conditions - each one, when broken, shifts, loses or duplicates an expiry for some history - '
                        'not a proof of lockstep agreement with a reference timer; overflow of the 32-bit time sums',
